@@ -184,7 +184,8 @@ def axioms(ab, max_pairs=3000, max_triples=600):
                 ax += [va > lo, va < hi]
     for (a, va), (b, vb) in itertools.islice(itertools.combinations(E, 2), max_pairs):
         xa, xb = A(a), A(b)
-        ax += [z3.Implies(xa + xb == 0, va * vb == 1), z3.Implies(xa < xb, va < vb), z3.Implies(xa > xb, va > vb)]
+        ax += [z3.Implies(xa + xb == 0, va * vb == 1), z3.Implies(xa < xb, va < vb), z3.Implies(xa > xb, va > vb),
+               z3.Implies(xa + xb > 0, va * vb > 1), z3.Implies(xa + xb < 0, va * vb < 1)]
     if len(E) <= 14:
         cnt = 0
         for (a, va), (b, vb), (c, vc) in itertools.permutations(E, 3):
